@@ -628,7 +628,19 @@ func (ie IndexExpression) PrettyPrint(out *PrintState) *PrintState {
 	ie.Left.PrettyPrint(out)
 	out.Print(ie.Literal())
 	out.ExpressionPrecedence = LOWEST
+	plainKey := false
+	switch ie.Index.(type) {
+	case *Identifier, *StringLiteral, *PostfixExpression: // m.k, m."k", m.v++ read back as they are.
+		plainKey = true
+	}
+	dotExpr := ie.Token.Type() == token.DOT && !plainKey
+	if dotExpr {
+		out.Print("(") // a.(b+c), a.(b.c), a.(1): anything but a name after the dot only reads back inside ( ).
+	}
 	ie.Index.PrettyPrint(out)
+	if dotExpr {
+		out.Print(")")
+	}
 	if ie.Token.Type() == token.LBRACKET {
 		out.Print("]")
 	}
